@@ -344,16 +344,32 @@ def _hyp_run(cell, res, body, strat, n_examples, seed_val, last_fail, in_hyp):
         res["error"] = "generator unsatisfiable: %s" % e
 
 
+def _msg_kind(msg):
+    import re
+
+    return re.sub(r"[-+]?[0-9][0-9.eE+-]*", "#", msg.split(" vs ")[0])[:60]
+
+
 def _simplify_floats(cell, case, budget=400):
-    """After Hypothesis' shrink: try rounding floats to few digits / snapping to 0, keeping failure
-    (and keeping it outside known findings)."""
+    """After Hypothesis' shrink: try rounding floats to few digits / snapping to 0, keeping the same kind of
+    failure (same message up to numbers; so rounding cannot wander into an invalid-input artefact) and
+    keeping it outside known findings."""
     calls = [0]
+    kind = [None]
+    try:
+        _guard_check(cell, case)
+    except Violation as v0:
+        kind[0] = _msg_kind(v0.msg)
+    except Exception:
+        return case
 
     def fails(c):
         calls[0] += 1
         try:
             _guard_check(cell, c)
         except Violation as v:
+            if kind[0] is not None and _msg_kind(v.msg) != kind[0]:
+                return False
             return _match_known(cell, c, v) is None
         except Discard:
             return False
